@@ -280,7 +280,9 @@ def run_cli(case, root: Path):
     work = root / 'work'
     work.mkdir(exist_ok=True)
     for p, text in (case.get('pre_files') or {}).items():
-        f = work / p; f.parent.mkdir(parents=True, exist_ok=True); f.write_text(text)
+        f = work / p; f.parent.mkdir(parents=True, exist_ok=True)
+        if isinstance(text, dict): f.write_bytes(bytes.fromhex(text['hex']))       # exact bytes (other line endings, undecodable bytes)
+        else: f.write_text(text)
     # materialise() wrote files/cfgs under root; move them under work
     for p in list(case.get('files') or {}) + [d + '/config.yaml' for d in (case.get('cfgs') or {})]:
         src = root / p
